@@ -16,6 +16,8 @@ RULE = ("APIs from harness/gv/props/flatapi.py: main package (proto-plus), optio
         "plus, for every parameter alone and for all together, the default of its type (0, '', False, [], {}, an empty message: "
         "falsy but not None). One case = (API, method, sync|asyncio, subset, values): kwargs call, request call and mixed call against the loopback gRPC "
         "server. distinct = distinct canonical JSON of (descriptor hash, method, variant, subset, expected request bytes); "
+        "Paginated RPCs additionally: two listings in a row walked to their end, once passing the same request object twice, once the same "
+        "keyword arguments twice (all requests the server saw compared; the caller's object compared before and after each call). "
         "non-trivial = the method has at least one flattened parameter. The witness APIs of corpus/C05 (known findings, defects "
         "repaired in /repo, presence of falsy values) run first.")
 TRUSTED = [
@@ -149,6 +151,18 @@ def make_api(r, shape):
         sigs = pick_sigs(r, idx, m.fqn, use_other, None)
         svc.rpc(v + "Thing", m.fqn, U.EMPTY if void else resp.fqn, ss=ss, sigs=sigs)
         plan.append({"rpc": v + "Thing", "sigs": sigs})
+    # paginated RPCs with a method signature: in the API's package, and with the request in the other package when there is one
+    # (a paginated RPC whose request is a plain protobuf message cannot be called at all: reported, corpus witness paged_pb2_request)
+    homes = [("ListThings", api.main)] + ([("ListFarThings", other.file)] if shape == "sub" else [])
+    for nm_, home in homes:
+        lreq = home.message(nm_ + "Request")
+        lreq.field("parent", 1, "string").field("filter", 2, "string").field("page_size", 3, "int32").field("page_token", 4, "string")
+        lreq.field("order_by", 5, "string", optional=True).field("kinds", 6, "int32", repeated=True)
+        lresp = api.main.message(nm_ + "Response")
+        lresp.field("things", 1, resp.fqn, repeated=True).field("next_page_token", 2, "string")
+        sg = r.choice([["parent"], ["parent,filter"], ["parent", "parent,filter,order_by"], ["parent,kinds"]])
+        svc.rpc(nm_, lreq.fqn, lresp.fqn, sigs=sg)
+        plan.append({"rpc": nm_, "sigs": sg})
     return api.request(), plan
 
 
@@ -174,6 +188,31 @@ def witness_api(kind):
         svc = main.service("Library", host="library.example.com")
         svc.rpc("GetBook", rq.fqn, resp.fqn, sigs=["name," + ("shared,library" if sub else "library"), "tags"])
         return apigen.request(files + [main], to_generate=togen + [main.proto.name], parameter="transport=grpc")
+    if kind == "paged_pb2_request":
+        dep = apigen.File("acme/common/v1/common.proto", "acme.common.v1")
+        lreq = dep.message("ListRequest")
+        lreq.field("parent", 1, "string").field("page_size", 2, "int32").field("page_token", 3, "string")
+        main = apigen.File("google/example/library/v1/library.proto", "google.example.library.v1",
+                           deps=list(apigen.STD_DEPS) + ["acme/common/v1/common.proto"])
+        book = main.message("Book")
+        book.field("name", 1, "string")
+        lresp = main.message("ListBooksResponse")
+        lresp.field("books", 1, book.fqn, repeated=True).field("next_page_token", 2, "string")
+        svc = main.service("Library", host="library.example.com")
+        svc.rpc("ListBooks", lreq.fqn, lresp.fqn, sigs=["parent"])
+        return apigen.request([dep, main], to_generate=[main.proto.name], parameter="transport=grpc")
+    if kind == "paged_reuse":
+        main = apigen.File("google/example/library/v1/library.proto", "google.example.library.v1", deps=list(apigen.STD_DEPS))
+        book = main.message("Book")
+        book.field("name", 1, "string").field("title", 2, "string")
+        lreq = main.message("ListBooksRequest")
+        lreq.field("parent", 1, "string").field("filter", 2, "string").field("page_size", 3, "int32").field("page_token", 4, "string")
+        lresp = main.message("ListBooksResponse")
+        lresp.field("books", 1, book.fqn, repeated=True).field("next_page_token", 2, "string")
+        svc = main.service("Library", host="library.example.com")
+        svc.rpc("ListBooks", lreq.fqn, lresp.fqn, sigs=["parent", "parent,filter"])
+        svc.rpc("GetBook", lreq.fqn, book.fqn, sigs=["parent"])
+        return apigen.request([main], parameter="transport=grpc")
     cross = kind in ("cross_two_repeated", "cross_dotted", "reserved_in_pb2", "keyword_param_pb2")
     far = {"pb2_reserved_leaf": "acme/common/v1/common.proto", "sub_reserved_leaf": "google/example/library/v1/shared/shared.proto",
            "pb2_nonprimitive_leaf": "acme/common/v1/common.proto"}.get(kind)
@@ -236,9 +275,9 @@ def witness_api(kind):
 # corpus/C05/<kind>.json holds each of these (written by write_corpus); the first four are the witnesses of defects that were
 # repaired in /repo (353b7c7, 14fc9e4, d43e852, 318bb4b): they stay so that a regression is reported
 WITNESSES = ["cross_two_repeated", "cross_dotted", "reserved_in_pb2", "reserved_segment", "presence", "pb2_reserved_leaf",
-             "sub_reserved_leaf", "module_named_param", "module_named_param_sub", "control_name", "duplicate_param", "empty_container_dotted", "falsy_request", "keyword_param_pb2"]
+             "sub_reserved_leaf", "module_named_param", "module_named_param_sub", "paged_reuse", "control_name", "duplicate_param", "empty_container_dotted", "falsy_request", "keyword_param_pb2"]
 # a witness whose class is not yet in findings/known_findings.json is reported in scratch/findings and joins the run once it is
-PENDING = {"pb2_nonprimitive_leaf": "flatten.nonprimitive_leaf_in_pb2_submessage"}
+PENDING = {"pb2_nonprimitive_leaf": "flatten.nonprimitive_leaf_in_pb2_submessage", "paged_pb2_request": "pager.plain_protobuf_request"}
 CORPUS = os.path.join(env.VERIF, "corpus", "C05")
 
 
@@ -484,6 +523,19 @@ def subsets(r, n, quick):
     return out
 
 
+def paged(idx, m):
+    """request with string page_token and int32 page_size, response with string next_page_token and a repeated message field"""
+    rq, rs = idx.msgs.get(m.input_type), idx.msgs.get(m.output_type)
+    if not rq or not rs or m.client_streaming or m.server_streaming:
+        return None
+    f = {x.name: x for x in rq[0].field}
+    g = {x.name: x for x in rs[0].field}
+    items = next((x for x in rs[0].field if x.label == F.LABEL_REPEATED and x.type == F.TYPE_MESSAGE), None)
+    ok = ("page_token" in f and f["page_token"].type == F.TYPE_STRING and "page_size" in f and f["page_size"].type == F.TYPE_INT32
+          and "next_page_token" in g and g["next_page_token"].type == F.TYPE_STRING and items is not None)
+    return items.name if ok else None
+
+
 def subs_nonempty(subs):
     return [x for x, _ in subs if x]
 
@@ -638,6 +690,7 @@ class ApiRun:
         if vm is None:
             return
         calls, meta = [], {}
+        self.seqmeta = {}
         r = env.rng("C05-vals", self.rindex)
         quick = ctx.quick() and not getattr(self, "deep", False)
         for k, (fp, s, m, rq, cross) in enumerate(table):
@@ -657,6 +710,31 @@ class ApiRun:
                 cls_path = vm + (("." + sub) if sub else "") + ".types:" + rq[len(fp_req.package) + 2:]
             else:
                 cls_path = U.module_of(fp_req.name) + ":" + rq[len(fp_req.package) + 2:]
+            items_field = paged(self.idx, m)
+            if items_field and keys and "page_token" not in keys:
+                # a listing walked to its end, twice: with the SAME request object, and with the same keyword arguments
+                src = self.dyn.random(r, rq, fill=1.0)
+                e_msg = self.dyn.new(rq)
+                for key in keys:
+                    set_path(e_msg, src, key)
+                pages = []
+                for tok in ("t1", "t2", "") * 2:
+                    pg = self.dyn.new(m.output_type[1:])
+                    getattr(pg, items_field).add()
+                    pg.next_page_token = tok
+                    pages.append({"messages": [U.b64(pg)]})
+                for variant, client, tr in (("Sync", s.name + "Client", "grpc"), ("Async", s.name + "AsyncClient", "grpc_asyncio")):
+                    for style in ("object", "kwargs"):
+                        cid = f"{k}/{variant}/seq/{style}"
+                        c = {"id": cid, "service_module": U.snake(s.name), "client": client, "transport": tr, "method": U.snake(m.name),
+                             "sequence": 2, "consume": "pager", "script": {f"/{fp.package}.{s.name}/{m.name}": pages}}
+                        srcd = {"cls": cls_path, "b64": U.b64(e_msg)}
+                        if style == "object":
+                            c["request"] = dict(srcd, mode="message")
+                        else:
+                            c["kwargs"], c["source"] = [{"param": params[i], "path": keys[i]} for i in range(len(keys))], srcd
+                        calls.append(c)
+                        self.seqmeta[cid] = (k, variant, style, e_msg)
             subs = [(x, False) for x in subsets(r, len(keys), quick)]
             if self.tag.startswith("w_"):
                 subs += [(x, True) for x in subs_nonempty(subs)]
@@ -767,9 +845,58 @@ class ApiRun:
         return f"{coq.b(tail_ok)} && match {self.blk_name(k)} {variant} with Some b => syn_eqb (syn_of b) {syn} | None => false end"
 
     # -- oracle + T2 on the observed calls
+    def judge_sequences(self, table, by):
+        """two listings in a row, each walked to its end: the same request object twice must send what the same keyword
+        arguments twice send, and the call must leave the caller's object as it was"""
+        ctx = self.ctx
+        seen = {}
+        for cid, (k, variant, style, e_msg) in self.seqmeta.items():
+            o = by.get(cid)
+            fp, s, m, rq, cross = table[k]
+            case = dict(self.case, method=m.name, variant=variant, mode="sequence/" + style, expected_request_b64=U.b64(e_msg))
+            ctx.case({"api": self.h, "method": m.name, "variant": variant, "sequence": style, "expected": case["expected_request_b64"]},
+                     nontrivial=True, feature=[variant, "paged-listing-twice", "same-" + style + "-twice",
+                                               "cross-package" if cross else "same-package"])
+            if o is None or (not o["ok"] and o.get("stage") == "import"):
+                continue
+            if not o["ok"]:
+                pb2 = not self.idx.proto_plus_pkg(self.idx.package_of(rq))
+                ctx.violation(f"{m.name} ({variant}): listing twice with the same {style} raised {o['error']['exception']}: "
+                              f"{o['error']['message'][:160]}", case, "pager.plain_protobuf_request" if pb2 else None)
+                continue
+            want = []
+            for _ in range(2):
+                for tok in ("", "t1", "t2"):
+                    w = type(e_msg)()
+                    w.CopyFrom(e_msg)
+                    w.page_token = tok
+                    want.append(w)
+            got = [self.dyn.parse(rq, b) for c in o["calls"] for b in c["requests"]]
+            seen[(k, variant, style)] = got
+            rounds = o["result"]["rounds"]
+            if style == "object":
+                for n, rd in enumerate(rounds):
+                    if rd["before"] != rd["after"] or rd["before"] != rounds[0]["before"]:
+                        ctx.violation(f"{m.name} ({variant}): listing number {n + 1} changed the caller's request object "
+                                      f"(the call must not mutate its argument)", dict(case, before=rd["before"], after=rd["after"]))
+                        break
+            if got != want:
+                ctx.violation(f"{m.name} ({variant}): listing twice with the same {style}: the server saw {len(got)} requests with page tokens "
+                              f"{[g.page_token for g in got]}, expected {[w.page_token for w in want]} on otherwise equal requests", case)
+            elif [rd["items"] for rd in rounds] != [3, 3]:
+                ctx.violation(f"{m.name} ({variant}): listing twice with the same {style} yielded {[rd['items'] for rd in rounds]} items, "
+                              f"the server served 3 per listing", case)
+        for (k, variant, style), got in seen.items():
+            other = seen.get((k, variant, "kwargs"))
+            if style == "object" and other is not None and got != other:
+                fp, s, m, rq, cross = table[k]
+                ctx.violation(f"{m.name} ({variant}): the same request object twice and the same keyword arguments twice sent different requests",
+                              dict(self.case, method=m.name, variant=variant, mode="sequence"))
+
     def judge(self, table, exps, out, meta, extracted):
         ctx = self.ctx
         by = {o["id"]: o for o in out}
+        self.judge_sequences(table, by)
         sigs_seen = {}
         sent = {}
         for cid, (k, variant, si, mode, sub_, exp_msg, empty_dotted) in meta.items():
@@ -824,6 +951,8 @@ class ApiRun:
                 # two members of one oneof passed together: protobuf keeps the last one; the valuation model has no oneofs
                 # (ASSUMES); the direct oracle below still judges the call
                 ctx.features["same-oneof-pair (oracle only)"] += 1
+            elif paged(self.idx, m) and not self.idx.proto_plus_pkg(self.idx.package_of(rq)) and mode != "mixed":
+                ctx.features["paged rpc with a plain protobuf request (oracle only)"] += 1
             elif obs_term is not None:
                 self.checks.append((f"{self.tag}.{m.name} {variant} {mode} subset={case['subset']}: model outcome = observed",
                                     f"match {self.blk_name(k)} {cv} with Some b => outcome_eqb_on {coq.slist(mkeys_x)} {coq.slist(all_prefixes(mkeys_x))} "
@@ -832,6 +961,11 @@ class ApiRun:
                 ctx.oblige(f"T2 {self.tag}.{m.name} {variant} {mode}: outcome is one the model knows", False, outcome_detail(o), "T2")
             # ---- the property's own sentences
             known = "flatten.nonprimitive_leaf_in_pb2_submessage" if pb2_leaf else None
+            if paged(self.idx, m) and not self.idx.proto_plus_pkg(self.idx.package_of(rq)):
+                known = "pager.plain_protobuf_request"      # the pager copies the request with T(request): protobuf has no such constructor
+            if mode == "request" and o.get("arg_before") is not None and o.get("arg_before") != o.get("arg_after"):
+                ctx.violation(f"{m.name} ({variant}): the call changed the caller's request object (it must not mutate its argument)",
+                              dict(case, before=o["arg_before"], after=o["arg_after"]), known)
             if mode == "mixed":
                 if not (not o["ok"] and o["error"]["exception"] == "ValueError" and "individual field arguments" in o["error"]["message"] and not o["calls"]):
                     ctx.violation(f"{m.name} ({variant}): request and flattened arguments together did not raise ValueError before sending "
